@@ -163,9 +163,14 @@ def make_system(rng: PlanRng):
     n_dom = rng.integers(6, 10)
     F = sig(rng.uniform(0.05, 1.0, (n_rec, n_dom)) ** 2)
     S = sig(rng.uniform(0.0, 1.0, (n_src, n_dom)) ** 3)
-    K = rng.choice([None, "v"])
+    K = rng.choice([None, "v", "m"], p=[0.42, 0.42, 0.16])
     Kv = sig(rng.uniform(0.3, 2.0, n_rec)) if K else 1.0
     base = rng.choice([0.0, 0.0, "v"])
+    if K == "m":
+        # a full (non-symmetric) adaptation matrix; the library needs a per-receptor baseline
+        # with it (a scalar one raises on the unchanged tree)
+        Kv = sig(np.diag(rng.uniform(0.5, 1.8, n_rec)) + rng.uniform(0.0, 0.25, (n_rec, n_rec)))
+        base = "v"
     bv = sig(rng.uniform(0.05, 0.6, n_rec)) if base == "v" else 0.0
     lb = sig(rng.uniform(0.05, 0.3, n_src)) if rng.coin(0.25) else None
     ub = sig(rng.uniform(1.0, 6.0, n_src)) if rng.coin(0.9) else None
@@ -245,8 +250,11 @@ def generate(rs, mode, tier, index):
         lb_ = np.zeros(sysd["n_src"]) if sysd["lb"] is None else np.asarray(sysd["lb"], float)
         q_ = A_ @ (0.5 * (lb_ + np.asarray(sysd["ub"], float)))
         ctx["l1_mid"] = {False: float(q_.sum()),
-                         True: float(((q_ + np.asarray(sysd["baseline"], float))
-                                      * np.asarray(sysd["K"], float)).sum())}
+                         True: float((np.asarray(sysd["K"], float) @ (
+                             q_ + np.asarray(sysd["baseline"], float))).sum()
+                             if np.ndim(sysd["K"]) == 2 else
+                             ((q_ + np.asarray(sysd["baseline"], float))
+                              * np.asarray(sysd["K"], float)).sum())}
     ops = []
     n_calls = rng.integers(3, 12)
     perturb_p = 0.5 if mode != "clean" else 0.25
@@ -348,17 +356,23 @@ def gamut_vertices(sysd, relative):
     X = np.array(list(product([0.0, 1.0], repeat=n_src))) * (ub - lb) + lb
     Q = X @ A.T
     if relative:
-        Q = (Q + np.asarray(sysd["baseline"], float)) * np.asarray(sysd["K"], float)
+        Kr = np.asarray(sysd["K"], float)
+        Q = Q + np.asarray(sysd["baseline"], float)
+        Q = Q @ Kr.T if Kr.ndim == 2 else Q * Kr
     return Q, A, lb, (ub if bounded else None)
 
 
 def lp_in_gamut(s, sysd, relative, A, lb, ub):
     """exists lb <= x <= ub with K(Ax + baseline) = s ?  (HiGHS, feasibility only)"""
     from scipy.optimize import linprog
-    K = np.asarray(sysd["K"], float) if relative else 1.0
+    K = np.asarray(sysd["K"], float) if relative else np.asarray(1.0)
     base = np.asarray(sysd["baseline"], float) if relative else 0.0
-    Aeq = A * (np.broadcast_to(K, (A.shape[0],))[:, None])
-    beq = s - np.broadcast_to(K * base, (A.shape[0],))
+    if K.ndim == 2:
+        Aeq = K @ A
+        beq = s - K @ np.broadcast_to(base, (A.shape[0],))
+    else:
+        Aeq = A * (np.broadcast_to(K, (A.shape[0],))[:, None])
+        beq = s - np.broadcast_to(K * base, (A.shape[0],))
     # work in the system's own capture unit (a dim system has captures around 1e-9): the unit
     # of the *relative* capture is that of K times the unit of the absolute one
     unit = max(float(np.max(np.abs(Aeq))), 1e-300)
